@@ -27,63 +27,42 @@ Print Assumptions oracle_complete.
 (* ---- every_scan_bounded for the LogQL log-query planners -------------------------------------------
    full strength: for every log query, finalisation flag and planner context (window, limit, direction,
    table layout, table names classified as the schema has them), every base-table read of the statement
-   that Plan(script).Process(ctx) builds is bounded.  FALSE of the code: *)
-Theorem every_scan_bounded_refuted :
-  exists sel fin c p q st' p',
-    ctx_tables table_info c /\ plan_log sel fin = Some p /\ process p c pst0 = Some (q, st', p') /\
-    ~ Forall (scan_bounded table_info (win c)) (scans q).
-Proof.
-  destruct slf_refutes as [Hp [[st' [p' Hq]] Hn]].
-  exists slf_query, true, std_ctx, slf_plan, slf_select, st', p'.
-  split; [exact std_ctx_tables|]. split; [exact Hp|]. split; [exact Hq | exact Hn].
-Qed.
-Print Assumptions every_scan_bounded_refuted.
-
-(* the strongest true statements.  (a) Every query WITHOUT a label filter in front of its first parser
-   (no SimpleLabelFilterPlanner), any matchers, line filters, parsers (json with parameters, regexp),
-   label filters after a parser, drop, unwrap, any context: every read is bounded. *)
-Theorem every_scan_bounded_partial : forall info sel fin c p q st' p',
-  ctx_tables info c -> no_slf sel = true ->
-  plan_log sel fin = Some p -> process p c pst0 = Some (q, st', p') ->
-  Forall (scan_bounded info (win c)) (scans q).
-Proof. exact log_scans_bounded. Qed.
-Print Assumptions every_scan_bounded_partial.
-
-(* (b) EVERY log query: each read is bounded, or is the time_series read of a SimpleLabelFilterPlanner,
-   which is restricted to the fingerprints of another select of the same statement (itself covered) *)
-Theorem every_scan_confined : forall info sel fin c p q st' p',
+   that Plan(script).Process(ctx) builds is bounded.  It was FALSE of the code (every_scan_bounded_refuted: the
+   time_series read of SimpleLabelFilterPlanner - a label filter in front of the first parser - carried
+   neither a date bound nor a type conjunct) until the repair 4cc5ee3 of /repo added both; the
+   former counterexample {a="b"} | c="d" is the Example below. Any matchers, line filters, label filters
+   before and after parsers, parsers (json with parameters, regexp), drop, unwrap, line_format. *)
+Theorem every_scan_bounded : forall info sel fin c p q st' p',
   ctx_tables info c ->
   plan_log sel fin = Some p -> process p c pst0 = Some (q, st', p') ->
-  Forall (fun sc => scan_bounded info (win c) sc \/ fp_restricted sc) (scans q).
-Proof. exact log_scans_confined. Qed.
-Print Assumptions every_scan_confined.
+  Forall (scan_bounded info (win c)) (scans q).
+Proof. exact log_scans_bounded_all. Qed.
+Print Assumptions every_scan_bounded.
+
+Example every_scan_bounded_hyp :
+  plan_log slf_query true = Some slf_plan /\
+  (exists st' p', process slf_plan std_ctx pst0 = Some (slf_select, st', p')) /\
+  every_scan_bounded_b table_info (win std_ctx) slf_select = true /\ Nat.leb 4 (List.length (scans slf_select)) = true.
+Proof. exact slf_witness. Qed.
 
 (* ---- metric scripts (range / vector aggregations, quantile, topk; b-c08's planner model) ---------------
    judged against the context window widened below to the enclosing 15-second storage boundary (win15:
    lower bounds may start at the 15 s boundary at or before From; the roll-up read ends at the 15 s boundary
-   at or before To).  (a) without a label filter in front of the first parser: every read is bounded *)
+   at or before To).  (a) EVERY metric script: every read is bounded *)
 Theorem every_metric_scan_bounded : forall info s fin c p q st' p',
-  ctx_tables info c -> 0 <= c_from_ns c -> 0 <= c_to_ns c -> no_slf (stream_selector s) = true ->
-  plan_metric s fin = Some p -> process p c pst0 = Some (q, st', p') ->
-  Forall (scan_bounded info (win15 c)) (scans q).
-Proof. exact metric_scans_bounded. Qed.
-Print Assumptions every_metric_scan_bounded.
-
-(* (b) every metric script: bounded, or the fingerprint-restricted time_series read of a SimpleLabelFilterPlanner *)
-Theorem every_metric_scan_confined : forall info s fin c p q st' p',
   ctx_tables info c -> 0 <= c_from_ns c -> 0 <= c_to_ns c ->
   plan_metric s fin = Some p -> process p c pst0 = Some (q, st', p') ->
-  Forall (fun sc => scan_bounded info (win15 c) sc \/ fp_restricted sc) (scans q).
-Proof. exact metric_scans_confined. Qed.
-Print Assumptions every_metric_scan_confined.
+  Forall (scan_bounded info (win15 c)) (scans q).
+Proof. exact metric_scans_bounded_all. Qed.
+Print Assumptions every_metric_scan_bounded.
 
-(* (c) a metric script that is not planned on the 15-second roll-up table is bounded by the context window
+(* (b) a metric script that is not planned on the 15-second roll-up table is bounded by the context window
    itself, without widening *)
 Theorem every_metric_scan_bounded_raw : forall info s fin c p q st' p',
-  ctx_tables info c -> analyze_m15 s = false -> no_slf (stream_selector s) = true ->
+  ctx_tables info c -> analyze_m15 s = false ->
   plan_metric s fin = Some p -> process p c pst0 = Some (q, st', p') ->
   Forall (scan_bounded info (win c)) (scans q).
-Proof. exact metric_scans_bounded_raw. Qed.
+Proof. exact metric_scans_bounded_raw_all. Qed.
 Print Assumptions every_metric_scan_bounded_raw.
 
 (* ---- FormatFromDate ------------------------------------------------------------------------------
